@@ -5,6 +5,7 @@ import (
 	"crypto/elliptic"
 	"crypto/sha512"
 	"encoding/hex"
+	"fmt"
 	"math/big"
 	"strings"
 	"sync"
@@ -103,6 +104,19 @@ func doVerifyRequestOn(c *h.Ctx, cat_ string, v vrCase, att *type3.RateLimitedAt
 		req.Marshal()
 		req.RequestKey, req.NameKeyID, req.EncryptedTokenRequest, req.Signature = v.key, v.nkid, v.enc, v.sig
 		cat_ += ":object-marshalled-before-the-change"
+	}
+	if len(v.enc) > 65535 {
+		// a hand-built request whose ciphertext cannot be 16-bit length-prefixed has no wire form and no signed message:
+		// it can only be refused (the unchanged code panics while building the signed message — tolerated here, such a
+		// request cannot come from a peer); what must never happen is acceptance or a state change
+		var err error
+		pan, _ := h.Protect(func() { err = att.VerifyRequest(req, v.blind, v.clientKey, []byte("anon")) })
+		_, registeredAfter := cache.m[hex.EncodeToString(v.clientKey)]
+		c.Count(cat_+":no-wire-form", 1, fmt.Sprint(len(v.enc)))
+		if (!pan && err == nil) || cache.puts > 0 || (registeredAfter && !v.preRegistered) {
+			c.Violation("attester accepts (or registers state for) a request that is not authentic: ciphertext too long to have a signed encoding", map[string]any{"category": cat_, "enc_len": len(v.enc), "panicked": pan})
+		}
+		return
 	}
 	var err error
 	pan, msg := h.Protect(func() { err = att.VerifyRequest(req, v.blind, v.clientKey, []byte("anon")) })
@@ -302,6 +316,15 @@ func runC06(c *h.Ctx) {
 			v = base
 			v.blind = b
 			doVerifyRequest(c, "blind-shapes", v)
+		}
+		// ciphertext lengths at and beyond the 16-bit length prefix (65535 is the longest request with a wire form)
+		for _, n := range []int{65535, 65536, 65537, 70000, 131072} {
+			v = base
+			v.enc = rnd(c, n)
+			doVerifyRequest(c, "ciphertext-length-limits", v)
+			v.sig = rnd(c, 96)
+			v.key = r2.RequestKey
+			doVerifyRequest(c, "ciphertext-length-limits", v)
 		}
 		// history leg: the same requests put to ONE long-lived attester, each refused or malformed request followed
 		// by an honest one — a verdict must depend on the request alone, never on what was asked before
